@@ -33,8 +33,10 @@ QS = [0.1, 0.25, 0.5, 0.75, 0.9]
 PS = [1, 3, 5]
 
 
-def write_file(path, rng, nt, nl, ns, miss):
-    hdr = "unixtime leadtime location lat lon altitude obs fcst " + " ".join("p%g" % t for t in PS) + " " + " ".join("q%g" % q for q in QS) + " pit"
+def write_file(path, rng, nt, nl, ns, miss, blanks=()):
+    """blanks: (column name, lead index) pairs whose cells are missing in every row of that lead time"""
+    cols = ["obs", "fcst"] + ["p%g" % t for t in PS] + ["q%g" % q for q in QS] + ["pit"]
+    hdr = "unixtime leadtime location lat lon altitude " + " ".join(cols)
     with open(path, "w") as f:
         f.write(hdr + "\n")
         for t in range(nt):
@@ -47,7 +49,7 @@ def write_file(path, rng, nt, nl, ns, miss):
                     pit = rng.choice([0, 0, 1, 3, 5, 8, 8, 10, 13, 15, 16, 16]) / 16.0
                     row = [1325376000 + 86400 * t, l * 6, 10 + s, 60 + s, 10 + 2 * s, 100 * s]
                     vals = [o, fc] + ps + qs + [pit]
-                    vals = ["-999" if rng.random() < miss else repr(v) for v in vals]
+                    vals = ["-999" if (rng.random() < miss or (c, l) in blanks) else repr(v) for c, v in zip(cols, vals)]
                     f.write(" ".join(str(x) for x in row) + " " + " ".join(vals) + "\n")
 
 
@@ -112,9 +114,16 @@ def _explore(out, tier, seed, facts, replay, tmp):
             F = rng.choice([2, 2, 3])
             nt, nl, ns = rng.randint(3, 5), rng.randint(2, 4), rng.randint(2, 3)
             files = []
+            # all-missing slices, the same in every input of the round (missing values are propagated across inputs)
+            round_blanks = []
+            if rng.random() < 0.7 and nl >= 2:
+                la, lb = rng.sample(range(nl), 2)
+                round_blanks += [("q0.1", la), ("q0.9", lb)]
+            if rng.random() < 0.5 and nl >= 3:
+                round_blanks.append(("obs", 1))
             for k in range(F):
                 fn = os.path.join(tmp, "r%d_%s.txt" % (rd, "abc"[k]))
-                write_file(fn, rng, nt, nl, ns, rng.choice([0.0, 0.05, 0.12]))
+                write_file(fn, rng, nt, nl, ns, rng.choice([0.0, 0.05, 0.12]), tuple(round_blanks))
                 files.append(fn)
             names = [os.path.basename(f) for f in files]
             with common.quiet():
@@ -133,9 +142,12 @@ def _explore(out, tier, seed, facts, replay, tmp):
                 return runner.cap.get("fig"), rep, ofile
 
             # ---- standard line plots against the csv table of the same command ---------------------------
-            for metric, extra in rng.sample([("mae", []), ("rmse", []), ("bias", []), ("corr", []), ("ets", ["-r", "2,4"]), ("stderror", []),
-                                             ("pc", ["-r", "3"]), ("mae", ["-agg", "median"])], 3):
+            std = rng.sample([("mae", []), ("rmse", []), ("bias", []), ("corr", []), ("ets", ["-r", "2,4"]), ("stderror", []),
+                              ("pc", ["-r", "3"]), ("mae", ["-agg", "median"])], 3)
+            for si, (metric, extra) in enumerate(std):
                 axis = rng.choice(["leadtime", "location", "lat", "elev", "leadtimeday"]) if "-r" not in extra or rng.random() < 0.6 else "threshold"
+                if si == 0:
+                    axis = "leadtime"           # one lead-time plot per round, also drawn with -acc below
                 args = ["-m", metric, "-x", axis] + extra
                 fig, rep, _ = run(args)
                 if fig is None:
@@ -161,6 +173,21 @@ def _explore(out, tier, seed, facts, replay, tmp):
                         break
                 else:
                     csv_compared += 1
+                # -acc: the plotted curve is the running sum of the scores, a missing score counting as 0
+                if axis in ("leadtime", "leadtimeday"):
+                    figa, repa, _ = run(args + ["-acc"])
+                    if figa is not None:
+                        la = lines_of(figa.axes[0], names)
+                        for k, l in enumerate(la[:F]):
+                            run_sum, want = 0.0, []
+                            for v in table[:, k]:
+                                run_sum += 0.0 if math.isnan(v) else float(v)
+                                want.append(run_sum)
+                            if not common.close_lists(f64(l.get_ydata()), want, 1e-5):
+                                out.violation("standard:acc", "verif %s -acc: line %d shows %s, the running sum of the scores %s (missing = 0) is %s" % (
+                                    " ".join(args), k, f64(l.get_ydata())[:8], [float(v) for v in table[:, k]][:8], want[:8]), repa)
+                                break
+                        stats["standard-acc"] = stats.get("standard-acc", 0) + 1
 
             # ---- -hist and -sort ---------------------------------------------------------------------------
             fld = rng.choice(["obs", "fcst"])
@@ -217,13 +244,17 @@ def _explore(out, tier, seed, facts, replay, tmp):
                         add("obsfcst", "verif %s, line %s" % (" ".join(args), nm), "map (vmean X) %s" % fvecs(rows_), l.get_ydata(), rep)
                     # shaded bands: polygon between the i-th lowest and i-th highest quantile of the same input
                     polys = [p for p in ax.patches if hasattr(p, "get_xy")]
-                    exp_n = F * (nq // 2)
+                    def has_point(c):
+                        return any(len(r) > 0 and not np.all(np.isnan(r)) for r in cols[c])
+                    drawn = [(f, i) for f in range(F) for i in range(nq // 2)
+                             if has_point(F + f + 1 + i * F) or has_point(F + f + 1 + F * (nq - 1 - i))]
+                    exp_n = len(drawn)
                     if len(polys) != exp_n:
                         out.violation("obsfcst:bands", "verif %s draws %d shaded bands, expected %d" % (" ".join(args), len(polys), exp_n), rep)
                     else:
                         k = 0
-                        for f in range(F):
-                            for i in range(nq // 2):
+                        for f, i in drawn:
+                            if True:
                                 xy = np.asarray(polys[k].get_xy(), float)
                                 if len(xy) > 1 and np.allclose(xy[0], xy[-1]):
                                     xy = xy[:-1]          # matplotlib closes the polygon
